@@ -178,6 +178,12 @@ func normLine(s string) string { return strings.Join(strings.Fields(s), " ") }
 func c17GenJudge(w *Worker, o *obs, variants []string, bad func(kind, variant, in, msg string, detail map[string]interface{})) {
 	dense := lrm.Dense(o.vw.V)
 	packed := lrm.Packed(o.vw.V)
+	// "a legal run of the grammar's LR automaton": where the declarations decide every cell, the
+	// reference table says which reductions a legal run makes on each input, rejected ones included
+	var refM *lrm.Machine
+	if o.tbl.AllJudged() {
+		refM = refMachine(o.g, o.tbl)
+	}
 	for _, v := range variants {
 		runs := o.runs[v]
 		if len(runs) != len(o.inputs) {
@@ -191,6 +197,20 @@ func c17GenJudge(w *Worker, o *obs, variants []string, bad func(kind, variant, i
 			r := runs[i]
 			if r.Class == "loop" || r.Class == "crash" {
 				continue
+			}
+			if refM != nil && o.d.Shape != gen.PlainCopy {
+				legal, out := refRun(refM, o, in)
+				if out != lrm.Looped {
+					w.Count("runs_compared_with_reference_automaton", 1)
+					same := len(legal) == len(r.Reds)
+					for k := 0; same && k < len(legal); k++ {
+						same = legal[k] == r.Reds[k].Rule
+					}
+					if !same {
+						bad("run-not-legal", v, in, fmt.Sprintf("the parser reduced by rules %v (and traced them); the LR automaton of the grammar reduces by %v on this input", r.Reds, legal), map[string]interface{}{"trace": r.Trace})
+						return
+					}
+				}
 			}
 			want := o.expectedTrace(m, in)
 			var got []string
